@@ -43,4 +43,13 @@ def runDriver (d : Driver) : IO Unit := do
 def pureDriver (f : List String → String) : Driver :=
   { σ := Unit, init := (), step := fun _ ws => ((), f ws) }
 
+/-- `main` of a per-property driver executable: `drv_cxx <model>` -/
+def mainOf (drivers : List (String × Driver)) (args : List String) : IO UInt32 := do
+  match args with
+  | [name] =>
+    match drivers.lookup name with
+    | some d => runDriver d; return 0
+    | none => IO.eprintln s!"unknown model {name}"; return 2
+  | _ => IO.eprintln "usage: drv_cxx <model>"; return 2
+
 end TbbVerif.Proto
